@@ -51,6 +51,15 @@ def rtDns (b : Bytes) : String :=
       | .error e => s!"decerr {(pDErr e).takeWhile (· != ' ')}"
       | .ok (m', _) => if pMsg (lowerMsg m) == pMsg (lowerMsg m') then "same" else "diff"
 
+/-- `mt.dns`: the model is a function, so its single answer is what every thread must produce -/
+def mtDns (b : Bytes) : String :=
+  match decodeDns b with
+  | .error e => s!"det dec=err:{pDErr e} enc=-"
+  | .ok (m, _) =>
+    match encodeDns m with
+    | .error e => s!"det dec=ok enc=err:{pEErr e}"
+    | .ok b' => s!"det dec=ok enc=ok:{hexOf b'}"
+
 def errKindShort : DErr → String
   | .addr4Prefix => "Ipv4Prefix" | .addr4Mask => "Ipv4Mask" | .addr6Prefix => "Ipv6Prefix"
   | .addr6Mask => "Ipv6Mask" | .cookieServerLength => "ServerCookieLength"
@@ -274,6 +283,7 @@ def handle (line : String) : String :=
       | none => s!"err {n}"
     | _, _ => "bad-op"
   | ["rt.dns", h] => withHex h rtDns
+  | ["mt.dns", _, _, h] => withHex h mtDns
   | _ => "bad-op"
 
 partial def loop (h : IO.FS.Stream) (out : IO.FS.Stream) : IO Unit := do
